@@ -64,7 +64,6 @@ func (l *listener) Listen(ctx context.Context, onMessage func(msg message) error
 	// Ensure the interrupt goroutine is canceled whether or not ctx itself
 	// is canceled.
 	ctx, cancel := context.WithCancel(ctx)
-	defer cancel()
 
 	// Wait for cancelation and then force any pending reads to time out.
 	var eg errgroup.Group
@@ -77,7 +76,13 @@ func (l *listener) Listen(ctx context.Context, onMessage func(msg message) error
 
 		return nil
 	})
-	defer func() { _ = eg.Wait() }()
+
+	// The interrupt goroutine only returns once ctx is canceled, so cancel
+	// before waiting for it.
+	defer func() {
+		cancel()
+		_ = eg.Wait()
+	}()
 
 	for {
 		// Receive and pass incoming NDP messages to the caller.
